@@ -47,6 +47,7 @@ func (c *Ctx) implementersOf(pkgRel string, iface *types.Interface) []*types.Nam
 
 func c06(c *Ctx) {
 	c.singleIDHeader("R06.7")
+	defer c06exactNoChangeTests(c)
 	P, R := c.P, c.R
 	R.Explain("R06.8", "a remove followed by a re-add reaches the session in that order: in State.popResponders every path of the *expunge edge (permitExpunge=false) records the message id in the skip set, whatever the snapshot holds, so the EXISTS of the re-add waits behind the held-back EXPUNGE; released early it is applied first and the later EXPUNGE then removes the message the connector re-added (shared with R05.2).")
 	if pop := c.fn("R06.8", "internal/state.(*State).popResponders"); pop != nil {
@@ -791,4 +792,73 @@ func sameBase(a, b ssa.Value) bool {
 		return true
 	}
 	return false
+}
+
+// c06exactNoChangeTests (R06.9): "nothing to do" is decided by identity, not by case-folded equality.
+func c06exactNoChangeTests(c *Ctx) {
+	P, R := c.P, c.R
+	R.Explain("R06.9", "an update that differs from the current state only in letter case is still a change: in the functions below user.apply (internal/backend, closures included) no success return is control-dependent on the true outcome of strings.EqualFold applied to two non-constant values (stored value against update value).  Only INBOX is case-insensitive; comparing with a constant (\"inbox\") is fine, comparing data with data case-insensitively turns a case-only rename into a silently acknowledged no-op.")
+	apply := c.fn("R06.9", "internal/backend.(*user).apply")
+	if apply == nil {
+		return
+	}
+	n := 0
+	for _, f := range c.withPackageHelpers(apply, "internal/backend", 3) {
+		n++
+		bad := ""
+		for _, b := range f.Blocks {
+			iff := engine.IfOf(b)
+			if iff == nil {
+				continue
+			}
+			cond, neg := engine.StripNot(iff.Cond)
+			call, ok := cond.(*ssa.Call)
+			if !ok || call.Call.StaticCallee() == nil || engine.PkgPathOf(call.Call.StaticCallee()) != "strings" || call.Call.StaticCallee().Name() != "EqualFold" {
+				continue
+			}
+			_, k0 := call.Call.Args[0].(*ssa.Const)
+			_, k1 := call.Call.Args[1].(*ssa.Const)
+			if k0 || k1 {
+				continue
+			}
+			eqIx := 0
+			if neg {
+				eqIx = 1
+			}
+			// a nil-error return that is inevitable from the "equal" edge but not from the other one
+			for _, ret := range engine.Returns(f) {
+				lr := engine.LastResult(ret)
+				if lr == nil || !engine.IsNilConst(lr) {
+					continue
+				}
+				inev := func(s *ssa.BasicBlock) bool {
+					seen := map[*ssa.BasicBlock]bool{}
+					ok := true
+					var walk func(x *ssa.BasicBlock)
+					walk = func(x *ssa.BasicBlock) {
+						if seen[x] || !ok || x == ret.Block() {
+							return
+						}
+						seen[x] = true
+						if len(x.Succs) == 0 {
+							ok = false
+							return
+						}
+						for _, y := range x.Succs {
+							walk(y)
+						}
+					}
+					walk(s)
+					return ok
+				}
+				if inev(b.Succs[eqIx]) && !inev(b.Succs[1-eqIx]) {
+					bad = P.Pos(call.Pos())
+				}
+			}
+		}
+		if bad != "" || f.Parent() == nil {
+			R.Check(bad == "", "R06.9", c.name(f)+"|no case-folded no-change test", P.Pos(f.Pos()), "no success return hangs on EqualFold(data, data)", "a success return is taken because two values are equal ignoring case ("+bad+"): an update that changes only the letter case is acknowledged but not applied")
+		}
+	}
+	R.Min("R06.9", "functions below user.apply", n, 15)
 }
